@@ -205,6 +205,12 @@ class Type3Tag(nfc.tag.Tag):
             if attributes['ver'] >> 4 != 1:
                 log.debug("unsupported ndef mapping major version")
                 return None
+            if attributes['nbr'] < 1:
+                log.debug("invalid attribute data (Nbr is zero)")
+                return None
+            if attributes['ln'] > attributes['nmaxb'] * 16:
+                log.debug("invalid attribute data (Ln exceeds Nmaxb)")
+                return None
 
             last_block_number = 1 + (attributes['ln'] + 15) // 16
             data = bytearray()
